@@ -8,7 +8,7 @@ from .. import storegen, storelib
 class C02(Prop):
     ID = "C02"
     MODULE = "AwProofs.Props.C02"
-    THEOREMS = []
+    THEOREMS = ["AwProofs.C02.backends_equal_events", "AwProofs.C02.backends_equal_sqlite_peewee", "AwProofs.C02.backends_interchangeable", "AwProofs.C02.delete_exact_memory", "AwProofs.C02.delete_exact_peewee", "AwProofs.C02.delete_exact_sqlite", "AwProofs.C02.history_refines_memory", "AwProofs.C02.history_refines_peewee", "AwProofs.C02.history_refines_sqlite", "AwProofs.C02.ids_unique_memory", "AwProofs.C02.ids_unique_peewee", "AwProofs.C02.ids_unique_sqlite", "AwProofs.C02.lookup_by_id_memory", "AwProofs.C02.lookup_by_id_peewee", "AwProofs.C02.lookup_by_id_sqlite", "AwProofs.C02.no_live_id_reuse_memory", "AwProofs.C02.no_live_id_reuse_peewee", "AwProofs.C02.no_live_id_reuse_sqlite", "AwProofs.C02.refines_memory", "AwProofs.C02.refines_peewee", "AwProofs.C02.refines_sqlite", "AwProofs.C02.replaceLast_exact_peewee", "AwProofs.C02.replaceLast_hits_limit1_memory", "AwProofs.C02.replaceLast_hits_limit1_peewee", "AwProofs.C02.replaceLast_hits_limit1_sqlite"]
     MODEL_NEEDS_IMPL = True
     WORKERS = 10
     LEVEL_TEXT = "Lean 4 refinement theorems: each backend model's view after every operation equals the list-model step"
